@@ -92,7 +92,8 @@ pub fn parse_datetime(s: &str) -> Result<(NaiveDateTime, NaiveDateTime), String>
             }
         }
         None => {
-            if s.len() >= 5 {
+            // the English date parser slices its input by bytes and panics on multi-byte characters
+            if s.len() >= 5 && s.is_ascii() {
                 match parse_date_string(s, Local::now(), Dialect::Uk) {
                     Ok(date_time) => {
                         let date_time = date_time.naive_local();
